@@ -19,6 +19,7 @@ type C12Val struct {
 	Num  int    `json:"num,omitempty"`
 	Ref  int    `json:"ref,omitempty"`  // >0: an object
 	Text string `json:"text,omitempty"` // non-numeric scalar: what printing it shows (nil, true, false, a string)
+	Empty bool  `json:"empty,omitempty"` // the empty string
 }
 
 type C12Block struct {
@@ -41,7 +42,7 @@ type C12Expect struct {
 
 // key pool: Latin, Bangla, two names that differ only in letter case, and one
 // containing U+09DF (a letter whose NFC form is its decomposition)
-var c12Keys = []string{"alpha", "beta", "gamma", "delta", "\u0995", "\u09a8\u09be\u09ae", "ID", "id", "\u09ac\u09df\u09b8"}
+var c12Keys = []string{"alpha", "beta", "gamma", "delta", "\u0995", "\u09a8\u09be\u09ae", "ID", "id", "\u09ac\u09df\u09b8", FnLen}
 
 type c12Gen struct {
 	s      Src
@@ -68,7 +69,17 @@ func (g *c12Gen) value() (string, C12Val) { return g.valueFor(0) }
 // valueFor draws a value to store into object target (0 = a new object): a
 // reference to an existing object is allowed when it cannot create a cycle.
 func (g *c12Gen) valueFor(target int) (string, C12Val) {
-	k := g.s.Int("valkind", 0, 11)
+	k := g.s.Int("valkind", 0, 15)
+	switch k {
+	case 12:
+		return "0", C12Val{Text: "0"}
+	case 13:
+		return "\"\"", C12Val{Empty: true}
+	case 14:
+		return "wr1", C12Val{Text: "<function wr1>"}
+	case 15:
+		return "[1, 2]", C12Val{Text: "[1 2]"}
+	}
 	if k >= 10 {
 		if len(g.order) > 0 {
 			v := g.pickVar("refvar")
@@ -687,6 +698,9 @@ func c12ValMatches(v C12Val, line string) bool {
 	if v.Ref > 0 {
 		return strings.HasPrefix(line, "map[")
 	}
+	if v.Empty {
+		return line == ""
+	}
 	if v.Text != "" {
 		return line == v.Text
 	}
@@ -696,6 +710,9 @@ func c12ValMatches(v C12Val, line string) bool {
 func c12ValString(v C12Val) string {
 	if v.Ref > 0 {
 		return "an object"
+	}
+	if v.Empty {
+		return "the empty string"
 	}
 	if v.Text != "" {
 		return v.Text
